@@ -1,2 +1,110 @@
-(* Property C12 (placeholder while the lemma files are being written). *)
-From Core Require Import C12_Ops C12_Model.
+(* Property C12: conjugate gradients returns the Krylov-optimal iterate and honours its stopping contract.
+   Only statements closed by [exact]; the lemmas live in C12_Contract.v, C12_Krylov.v, C12_Run.v, C12_Summary.v,
+   C12_Witness.v.  The model (C12_Model.v) is a transcription of cola/linalg/inverse/cg.py and of
+   cola/utils/torch_tqdm.py:while_loop_winfo over an abstract scalar/vector interface; the same term is executed
+   on PrimFloat by the correspondence check. *)
+From Coq Require Import List Bool Arith QArith Qcanon.
+From Core Require Import C12_Ops C12_Model C12_Contract C12_Krylov C12_Run C12_Summary C12_Witness.
+Import ListNotations.
+Local Close Scope Qc_scope. Local Close Scope Q_scope.
+
+(* the instrumented while loop: info['iterations'] = bodies + 1, len(info['errors']) = bodies, for any loop *)
+Theorem C12_while_winfo_bookkeeping : forall (T St : Type) (cond : St -> bool) (body : St -> St) (err : St -> T) fuel init out its errs nb,
+  while_winfo cond body err fuel init = (out, its, errs, nb) ->
+  nb <= fuel /\ its = nb + 1 /\ length errs = nb /\ out = Nat.iter nb body init /\
+  (forall i, i < nb -> cond (Nat.iter i body init) = true) /\ (nb = fuel \/ cond out = false).
+Proof. exact @while_winfo_spec. Qed.
+Print Assumptions C12_while_winfo_bookkeeping.
+
+(* stopping contract, for every scalar/vector instance (floats included), every operator, preconditioner, flag:
+   steps <= max_iters; iterations = steps+1; len(errors) = steps; the result is the state after [steps] steps;
+   it stopped because max_iters was reached or every column passed the residual test; no earlier state passed it;
+   the loop's own condition is false at exit (the fuel of the model never cuts a run short) *)
+Theorem C12_contract : forall (T V : Type) (o : ops T) (vo : vops T V) (A P : V -> V) (flag : bool) (tol : T) (max_iters : nat) (bs x0s : list V),
+  let r := run_cg o vo A P flag tol max_iters bs x0s in let k := steps r in
+  k <= max_iters /\ bodies r = k /\ iterations r = k + 1 /\ length (errors r) = k /\
+  sol r = map (fun c => vscale vo (cmult c) (cx c)) (fst (cg_state o vo A P flag tol bs x0s k)) /\
+  (k = max_iters \/ all_converged o vo (cg_state o vo A P flag tol bs x0s k) = true) /\
+  (forall j, j < k -> all_converged o vo (cg_state o vo A P flag tol bs x0s j) = false) /\
+  cg_cond o vo max_iters (cg_state o vo A P flag tol bs x0s k) = false.
+Proof. exact @cg_contract. Qed.
+Print Assumptions C12_contract.
+
+(* a zero right-hand side column is returned as exactly zero (any x0, A, P, tol, max_iters, other columns) *)
+Theorem C12_zero_rhs : forall (T : Type) (o : ops T),
+  (forall x, omul o (o0 o) x = o0 o) -> (forall x, omul o x (o0 o) = o0 o) -> oadd o (o0 o) (o0 o) = o0 o -> osqrt o (o0 o) = o0 o ->
+  forall (A P : list T -> list T) flag tol max_iters bs x0s j b,
+  nth_error bs j = Some b -> j < length x0s -> allzero o b ->
+  exists x, nth_error (sol (run_cg o (lvops o) A P flag tol max_iters bs x0s)) j = Some x /\ allzero o x.
+Proof. exact @cg_zero_rhs. Qed.
+Print Assumptions C12_zero_rhs.
+
+(* columns do not influence each other's values *)
+Theorem C12_column_independent : forall (T V : Type) (o : ops T) (vo : vops T V) (A P : V -> V) flag tol (bs x0s : list V) k j b x0,
+  nth_error bs j = Some b -> nth_error x0s j = Some x0 ->
+  nth_error (fst (cg_state o vo A P flag tol bs x0s k)) j = Some (Nat.iter k (step_col o vo A P) (init_col o vo A P flag tol b x0)).
+Proof. exact @cg_column_independent. Qed.
+Print Assumptions C12_column_independent.
+
+(* exact arithmetic, Hermitian A and P, guards inactive: orthogonality / conjugacy invariants of the code's step *)
+Theorem C12_invariants : forall (T V : Type) (o : ops T) (vo : vops T V) (A P : V -> V), ips_laws o vo A P ->
+  forall c0 K, started vo P c0 -> no_breakdown o vo A P c0 K -> forall k, k <= K -> Inv o vo A P c0 k.
+Proof. exact @cg_invariants_b. Qed.
+Print Assumptions C12_invariants.
+
+Theorem C12_residual_identity : forall (T V : Type) (o : ops T) (vo : vops T V) (A P : V -> V), ips_laws o vo A P ->
+  forall c0 K bn, no_breakdown o vo A P c0 K ->
+  (forall u, vdot vo u (cr c0) = osub o (vdot vo u bn) (vdot vo u (A (cx c0)))) ->
+  forall k u, k <= K -> vdot vo u (cr (cs o vo A P c0 k)) = osub o (vdot vo u bn) (vdot vo u (A (cx (cs o vo A P c0 k)))).
+Proof. exact @cg_residual_b. Qed.
+Print Assumptions C12_residual_identity.
+
+Theorem C12_pythagoras : forall (T V : Type) (o : ops T) (vo : vops T V) (A P : V -> V), ips_laws o vo A P ->
+  forall c0 K bn xs, started vo P c0 -> no_breakdown o vo A P c0 K ->
+  (forall u, vdot vo u (cr c0) = osub o (vdot vo u bn) (vdot vo u (A (cx c0)))) ->
+  (forall u, vdot vo u (A xs) = vdot vo u bn) ->
+  forall k c, k <= K ->
+  phi vo A xs (vadd vo (cx (cs o vo A P c0 k)) (comb o vo A P c0 k c))
+  = oadd o (phi vo A xs (cx (cs o vo A P c0 k))) (vdot vo (comb o vo A P c0 k c) (A (comb o vo A P c0 k c))).
+Proof. exact @cg_pythagoras_b. Qed.
+Print Assumptions C12_pythagoras.
+
+(* optimality of what run_cg returns: column j of the result is ||b|| * x_k, x_k lies in (start) + span{p_0..p_(k-1)}
+   and no element of that affine space has a smaller A-norm of the error ([Pos] = "is a non-negative real") *)
+Theorem C12_run_optimal : forall (T V : Type) (o : ops T) (vo : vops T V) (A P : V -> V), ips_laws o vo A P ->
+  forall (flag : bool) (tol : T) (max_iters : nat) (bs x0s : list V) j b x0,
+  nth_error bs j = Some b -> nth_error x0s j = Some x0 ->
+  let r := run_cg o vo A P flag tol max_iters bs x0s in
+  let c0 := init_col o vo A P flag tol b x0 in
+  no_breakdown o vo A P c0 (steps r) ->
+  forall xs, (forall u, vdot vo u (A xs) = vdot vo u (safe_vdiv o vo b (vnorm o vo b))) ->
+  exists xk, nth_error (sol r) j = Some (vscale vo (cmult c0) xk) /\
+    (forall u, vdot vo u xk = vdot vo u (vadd vo (cx c0) (comb o vo A P c0 (steps r) (al o vo A P c0)))) /\
+    forall (Pos : T -> Prop), (forall v, Pos (vdot vo v (A v))) ->
+      forall c, Pos (osub o (phi vo A xs (vadd vo xk (comb o vo A P c0 (steps r) c))) (phi vo A xs xk)).
+Proof. exact @cg_run_optimal_b. Qed.
+Print Assumptions C12_run_optimal.
+
+(* the hypotheses of C12_run_optimal are satisfiable: a 2x2 rational system, two steps *)
+Example C12_run_optimal_instance :
+  let b : V2 := (qz 3, qz 4) in let x0 : V2 := (qz 0, qz 0) in
+  let r := run_cg QcOps v2ops A2 P2 false wtol 2 [b] [x0] in
+  let c0 := init_col QcOps v2ops A2 P2 false wtol b x0 in
+  steps r = 2 /\
+  forall xs : V2, (forall u, vdot v2ops u (A2 xs) = vdot v2ops u (safe_vdiv QcOps v2ops b (vnorm QcOps v2ops b))) ->
+  exists xk, nth_error (sol r) 0 = Some (vscale v2ops (vnorm QcOps v2ops b) xk) /\
+    forall c, (0 <= phi v2ops A2 xs (vadd v2ops xk (comb QcOps v2ops A2 P2 c0 2 c)) - phi v2ops A2 xs xk)%Qc.
+Proof. exact cg_run_optimal_instance. Qed.
+Print Assumptions C12_run_optimal_instance.
+
+(* the pinned tree (flag cg_x0_unscaled = true) violates the optimality clause: A = diag(1,2), b = (3,4),
+   x0 = (27/10, 9/5), one step - an element of x0 + K_1 has a strictly smaller A-norm error than the returned vector *)
+Theorem C12_refuted_x0_unscaled :
+  exists t, Qc_ltb (werr2 (wkrylov1 t)) (werr2 (wsol true)) = true /\ steps (wrun true) = 1.
+Proof. exact cg_refuted_x0_unscaled. Qed.
+Print Assumptions C12_refuted_x0_unscaled.
+
+(* with the flag cleared the same witness returns exactly the optimum of x0 + K_1 *)
+Theorem C12_witness_fixed_optimal : map this (wsol false) = map this (wkrylov1 (qq 25 41)).
+Proof. exact cg_witness_fixed_optimal. Qed.
+Print Assumptions C12_witness_fixed_optimal.
